@@ -200,7 +200,7 @@ def instantiate(g, rng, sd):
             kind = rng.choice(MEMC)
             ops = ops[:1]
         else:
-            if ext:
+            if ext and rng.random() < 0.45:   # a data operand that is neither IFM nor IFM2
                 kind = rng.choice(CPU1X if len(ops) == 1 else CPU2X)
                 ops.append(tens(ext[0]))
             elif len(ops) == 1 and ifm == [0] and rng.random() < 0.3:
@@ -208,8 +208,6 @@ def instantiate(g, rng, sd):
                 ops.append(tens(0, second=True))
             else:
                 kind = rng.choice(CPU1 if len(ops) == 1 else CPU2)
-        if len(ifm) == 2 and len(ops) == 1:        # memory-only node drawn with two producers: use the first
-            pass
         kinds.append(kind)
         first_new = len(b.n.o)
         outs[i] = b.node(i, kind, ops)
@@ -535,6 +533,14 @@ def crash_signature(r):
 
 def main(tier, only=None):
     run = Run("C11", tier)
+    try:
+        return _main(run, tier)
+    except BaseException:
+        run.cleanup()          # scratch directories must not outlive a machinery error
+        raise
+
+
+def _main(run, tier):
     sd = seed()
     model_check(run, tier)
     jobs, meta = build_jobs(tier, sd, run)
